@@ -351,7 +351,7 @@ def fuzz_check(case, note):
 
 def enum_atheris(ctx):
     from vlib import fuzzleg
-    yield from fuzzleg.campaign("c16", ctx, runs_quick=0, runs_thorough=150000, shards=4, max_len=160)
+    yield from fuzzleg.campaign("c16", ctx, runs_quick=0, runs_thorough=600000, shards=4, max_len=160)
 
 
 def chk_atheris(case, note):
